@@ -912,15 +912,18 @@ def from_text(
                 grdata = GenericRdata.from_text(
                     rdclass, rdtype, tok, origin, relativize, relativize_to
                 )
+                # Names in the wire form are absolute; relativize them exactly as
+                # the textual form would be, and re-encode against the same origin.
+                wire_origin = (relativize_to or origin) if relativize else None
                 rdata = from_wire(
-                    rdclass, rdtype, grdata.data, 0, len(grdata.data), origin
+                    rdclass, rdtype, grdata.data, 0, len(grdata.data), wire_origin
                 )
                 #
                 # If this comparison isn't equal, then there must have been
                 # compressed names in the wire format, which is an error,
                 # there being no reasonable context to decompress with.
                 #
-                rwire = rdata.to_wire()
+                rwire = rdata.to_wire(origin=wire_origin)
                 if rwire != grdata.data:
                     raise dns.exception.SyntaxError(
                         "compressed data in "
